@@ -79,6 +79,42 @@ def judge_process(case):
                        states=case["steps"], transitions=case["steps"])
 
 
+def judge_drift(case):
+    """a many-step process run that STARTS beside a dangerous state and drifts through it (the feed composition moves by
+    about 0.004 per step): every step must finish, whatever the previous steps left behind."""
+    if _CONFIRMED["n"] >= STOP_AFTER:
+        return core.result("skipped-after-%d-confirmed-violations" % STOP_AFTER, nontrivial=False, skipped=1)
+    st8 = case["state"]
+    mix = U.get_mixture(st8["mixture"])
+    t, P, model, prec = st8["T"], st8["P"], st8["model"], st8["precision"]
+    mode = tuple(st8["mode"]) if st8["mode"] != "vac" else "vac"
+    kw = U.permeate_kwargs(mode, t)
+    x0 = min(max(st8["x"] + case["offset"], 0.01), 0.99)
+    mem = U.make_membrane(mix, P[0], P[1], t_ref=t, ea1=25000.0, ea2=60000.0)
+    pv = solver.ObservedPV(membrane=mem, mixture=mix).observe(budget=B)
+    comp = U.Composition(p=x0, type="weight")
+    # size the area so that the feed fraction moves by ~0.004 per step (step-0 fluxes observed on a probe call)
+    stp, j = core.call(pv.calculate_partial_fluxes, feed_temperature=t, composition=comp, precision=prec, calculation_type=model, **kw)
+    if stp != "ok":
+        if isinstance(j, (solver.Lasso, solver.Budget)):
+            _CONFIRMED["n"] += 1
+            return core.result("still-running", viol=[core.viol("C10/periodic_and_running", "probe flux calculation does not finish: %s" % j, state=st8)], traces=1)
+        return core.result("probe-raised", nontrivial=False)
+    rate = abs(float(j[0]) - x0 * (float(j[0]) + float(j[1])))
+    if not (rate > 0 and math.isfinite(rate)):
+        return core.result("no-drift", nontrivial=False)
+    amount, dt = 10.0, 0.1
+    area = 0.004 * amount / (rate * dt)
+    cond = U.Conditions(membrane_area=area, initial_feed_temperature=t, initial_feed_amount=amount, initial_feed_composition=comp,
+                        permeate_temperature=kw.get("permeate_temperature"), permeate_pressure=kw.get("permeate_pressure"))
+    f = pv.ideal_isothermal_process if case["kind"] == "ideal_iso" else pv.ideal_non_isothermal_process
+    st, r = core.call(f, number_of_steps=case["steps"], delta_hours=dt, conditions=cond, precision=prec, calculation_type=model)
+    if st == "raise" and isinstance(r, (solver.Lasso, solver.Budget)):
+        _CONFIRMED["n"] += 1
+        return core.result("still-running", viol=[core.viol("C10/process_hangs/" + case["kind"], "a %d-step run drifting through a state where the flux iteration cycles does not finish: %s" % (case["steps"], r), state=st8, x0=x0)], traces=1)
+    return core.result("returned" if st == "ok" else "raised:" + type(r).__name__, digest=core.digest_of(case), traces=1, states=case["steps"], transitions=case["steps"])
+
+
 ENTRY_POINTS = ["ideal_iso", "ideal_noniso", "nonideal_iso", "nonideal_noniso", "ideal_curve", "nonideal_curve", "permeate_composition", "separation_factor"]
 
 
@@ -139,7 +175,7 @@ def flux_space(tier, seed):
         "x": core.lat([0.02, 0.1, 0.3, 0.5, 0.7, 0.9, 0.98], seed) if q else
              core.lat([0.01, 0.02, 0.05, 0.1, 0.2, 0.3, 0.4, 0.5, 0.6, 0.7, 0.8, 0.9, 0.95, 0.98, 0.99], seed),
         "T": core.lat([313.15, 353.15], seed) if q else core.lat([273.15, 293.15, 313.15, 333.15, 353.15, 373.15, 400.0], seed),
-        "precision": [5e-5, 1e-8] if q else [1e-3, 5e-5, 1e-8],
+        "precision": [5e-5, 1e-8, 1e-2, 0.1] if q else [1e-3, 5e-5, 1e-8, 1e-2, 0.03, 0.1],  # incl. coarse ones, of the size of the cycles' amplitudes
     }
     return core.Space("flux_orbits", alph, lambda c: U.has_model(U.get_mixture(c["mixture"]), c["model"]))
 
@@ -190,6 +226,11 @@ def main(tier, seed):
         eps = core.ListSpace("entry_points_at_dangerous_states", [{"ep": ep, "state": d} for d in dangerous for ep in ENTRY_POINTS],
                              note="states of the flux lattice at which the iteration cycles or needs > 20000 evaluations, driven through 8 public entry points")
         core.run_space(rep, eps, judge_entry_point, chunk=1, determinism_probe=0)
+        fine = [d for d in dangerous if d["precision"] <= 1e-3][: (12 if tier == "quick" else 80)]
+        drift = core.ListSpace("drift_through_dangerous_states", [{"state": d, "kind": k, "offset": o, "steps": 30} for d in fine for k in ("ideal_iso", "ideal_noniso")
+                                                                 for o in (-0.06, -0.02, 0.02, 0.06)],
+                               note="30-step ideal process runs started 0.02 / 0.06 beside a dangerous state, area sized for a drift of 0.004 per step")
+        core.run_space(rep, drift, judge_drift, chunk=1, determinism_probe=0)
     per = sum(v for k, v in m["outcomes"].items() if k.startswith("periodic"))
     rep.note("periodic_orbits_in_flux_lattice", per)
     rep.note("aperiodic_and_running", m["outcomes"].get("aperiodic-and-running", 0))
@@ -199,7 +240,7 @@ def main(tier, seed):
 
 
 def replay(body):
-    fn = judge_entry_point if "ep" in body["case"] else (judge_process if "kind" in body["case"] else judge)
+    fn = judge_drift if "offset" in body["case"] else (judge_entry_point if "ep" in body["case"] else (judge_process if "kind" in body["case"] else judge))
     r1 = fn(body["case"])
     _CONFIRMED["n"] = 0
     r2 = fn(body["case"])
